@@ -20,7 +20,9 @@ import (
 	"sort"
 	"strconv"
 	"strings"
+	"runtime"
 	"sync"
+	"sync/atomic"
 	"time"
 
 	"verifharness/drv"
@@ -337,12 +339,60 @@ func c01Dims(r *rand.Rand, s string) string {
 		s += " enc=" + []string{"int", "yaml", "list", "yamllist", "yaml"}[r.Intn(5)]
 	}
 	switch x := r.Intn(100); {
+	case x < 2 && !strings.HasPrefix(s, "kind=step"):
+		s += fmt.Sprintf(" start=implicit conc=%d", 2+r.Intn(7))
 	case x < 6 && !strings.HasPrefix(s, "kind=step"):
 		s += " start=implicit"
 	case x < 14:
 		s += fmt.Sprintf(" conc=%d", 2+r.Intn(7))
 	}
+	// a rate of 0 may simply be left out of the section; half of these after another profile of the same kind
+	if strings.Contains(s, "=0 ") && r.Intn(3) == 0 {
+		s += " omit=1"
+		if r.Intn(2) == 0 {
+			s += " warm=1"
+		}
+	}
 	return s
+}
+
+// c01Lazy: small leaf profiles that are never Start()ed and whose consumers all do their first Next() at the same time
+// (the engine never calls Start on the rps schedule shared by the instances of a pool), each built and drained `trials`
+// times; a third of them with scheduling perturbation inside the schedule's methods (inst=1), which also goes to a few
+// explicitly started and step profiles.
+func c01Lazy(r *rand.Rand, n int) []string {
+	var out []string
+	for i := 0; i < n; i++ {
+		d := time.Duration(1+r.Intn(2000)) * time.Millisecond
+		ops := 1 + r.Intn(120)
+		rate := float64(ops) / (float64(d) / 1e9)
+		var c string
+		switch r.Intn(5) {
+		case 0:
+			c = fmt.Sprintf("kind=once times=%d", ops)
+		case 1:
+			c = lineIn(math.Floor(rate)+1, math.Floor(rate/2), int64(d))
+		case 2:
+			c = lineIn(0, math.Floor(2*rate)+1, int64(d))
+		default:
+			c = constIn(math.Floor(rate)+0.5, int64(d))
+		}
+		conc := 2 + r.Intn(7)
+		switch i % 3 {
+		case 0:
+			out = append(out, c+fmt.Sprintf(" start=implicit conc=%d trials=%d inst=1", conc, 6+r.Intn(6)))
+		case 1:
+			out = append(out, c+fmt.Sprintf(" start=implicit conc=%d trials=%d", conc, 40+r.Intn(60)))
+		default:
+			if r.Intn(2) == 0 {
+				out = append(out, c+fmt.Sprintf(" conc=%d trials=%d inst=1", conc, 3+r.Intn(4)))
+			} else {
+				st := 1 + int64(rate/3)
+				out = append(out, stepIn(math.Floor(rate/3), math.Floor(rate/3)+float64(2*st), st, int64(d))+fmt.Sprintf(" conc=%d trials=%d inst=1", conc, 2+r.Intn(3)))
+			}
+		}
+	}
+	return out
 }
 
 func c01Gen(r *rand.Rand, tier string) []string {
@@ -413,6 +463,11 @@ func c01Gen(r *rand.Rand, tier string) []string {
 		}
 		out = append(out, c+fmt.Sprintf(" conc=%d", 4+r.Intn(9)))
 	}
+	nLazy := 90
+	if tier == "thorough" {
+		nLazy = 900
+	}
+	out = append(out, c01Lazy(r, nLazy)...)
 	// ill-conditioned lines
 	for i := 0; i < nIll; i++ {
 		d := c01Duration(r)
@@ -590,6 +645,48 @@ func c01Decode(m map[string]string) (s core.Schedule, ok bool) {
 		}
 		return conf.RPS, true
 	}
+	if m["warm"] == "1" {
+		// warm=1: another profile of the SAME kind, with every number different from this one's and no rate equal to zero,
+		// is decoded first in this process and thrown away. A configuration means what its own section says, whatever
+		// was decoded before it.
+		w := map[string]string{"kind": m["kind"], "enc": m["enc"], "dsp": m["dsp"]}
+		bump := func(k string, by float64) {
+			if v, ok := m[k]; ok {
+				f := parseRat(v)
+				if f < 0 || math.IsNaN(f) || math.IsInf(f, 0) {
+					f = 0
+				}
+				w[k] = ratOf(math.Floor(f) + by)
+			}
+		}
+		bump("ops", 7)
+		bump("from", 4)
+		bump("to", 9)
+		if v, err := strconv.ParseInt(m["step"], 10, 64); err == nil {
+			if v < 1 {
+				v = 1
+			}
+			w["step"] = strconv.FormatInt(v+1, 10)
+		}
+		if v, err := strconv.ParseInt(m["times"], 10, 64); err == nil {
+			if v < 1 {
+				v = 1
+			}
+			w["times"] = strconv.FormatInt(v+2, 10)
+		}
+		if v, err := strconv.ParseInt(m["dur"], 10, 64); err == nil {
+			if v < 1000000 {
+				v = 1000000
+			}
+			w["dur"] = strconv.FormatInt(v+1_000_000_000, 10)
+		}
+		if _, ok := c01Decode(w); !ok {
+			panic("the warm-up profile was rejected")
+		}
+	}
+	// omit=1: a rate option whose value is 0 is left out of the section (no option of these profiles is required; an
+	// omitted rate is 0)
+	omitZero := m["omit"] == "1"
 	enc := m["enc"]
 	type kvT struct {
 		k string
@@ -609,6 +706,15 @@ func c01Decode(m map[string]string) (s core.Schedule, ok bool) {
 		fields = []kvT{{k: "times", i: atoi("times")}}
 	default:
 		panic("kind")
+	}
+	if omitZero {
+		var kept []kvT
+		for _, f := range fields {
+			if !(f.isRate && f.f == 0) {
+				kept = append(kept, f)
+			}
+		}
+		fields = kept
 	}
 	dur := ""
 	if m["kind"] != "once" {
@@ -695,66 +801,59 @@ func c01Decode(m map[string]string) (s core.Schedule, ok bool) {
 	return conf.RPS, true
 }
 
-func c01Run(input string) string {
-	m := drv.KV(input)
-	if ref := m["doc"]; ref != "" {
-		if _, _, ok := c01DocSection(ref); !ok {
-			return "NODOC" // replayed against a tree whose documentation has no such example
-		}
-	}
-	s, ok := c01Decode(m)
-	if !ok {
-		return "REJECT"
-	}
-	left0 := s.Left()
-	capN := capTokens
-	if m["big"] == "1" {
-		capN = capTokensBig
-	}
-	t0 := time.Unix(1_700_000_000, 0)
-	if v, ok := m["t0"]; ok {
-		ns, err := strconv.ParseInt(v, 10, 64)
-		if err != nil {
-			panic(err)
-		}
-		t0 = time.Unix(0, ns)
-	}
-	// start=implicit: the schedule is never told its start; the first Next() takes time.Now() as the profile's start.
-	// Offsets are then reported relative to a clock reading taken just before that call, together with the width of the
-	// bracket [before, after] around it: the Spec places the start inside the bracket.
-	implicit := m["start"] == "implicit"
-	slack := int64(-1)
+// c01Drain is what one drained schedule showed.
+type c01Drain struct {
+	left0   int
+	toks    []int64 // offsets from t0 (explicit start) or from the clock reading taken before the first Next() (implicit)
+	fin     int64
+	stable  bool
+	mono    bool
+	slack   int64 // implicit start: ns between that clock reading and the return of the EARLIEST first Next(); else -1
+	tooMany bool
+}
+
+// c01DrainOnce starts (or deliberately does not start) the schedule and drains it with one or several consumers.
+//
+// explicit start: Start(t0), offsets are relative to t0.
+// implicit start: the schedule is never told its start; the first Next() takes time.Now() as the profile's start.
+// Offsets are reported relative to a clock reading `before` taken before any Next(), together with the width of the
+// bracket between `before` and the moment the earliest first Next() RETURNED: whatever Next() returns is start + offset,
+// so the start was fixed before any call returned; the Spec places the start inside that bracket.
+// conc=N: N consumers (the instances of a pool share one rps schedule, and the engine never calls Start on it) are
+// released together and draw until their first ok=false; the handed-out instants are merged and sorted.
+func c01DrainOnce(s core.Schedule, capN int, t0 time.Time, implicit bool, conc int) c01Drain {
+	d := c01Drain{left0: s.Left(), stable: true, mono: true, slack: -1}
 	if !implicit {
 		s.Start(t0)
 	}
-	var toks []int64
-	if left0 > 0 && left0 <= capN {
-		toks = make([]int64, 0, left0)
-	}
-	mono := true
-	var fin int64
-	stable := true
-	conc, _ := strconv.Atoi(m["conc"])
-	if conc > 1 && !implicit {
-		// conc=N: N consumers drain the schedule at the same time (the way the instances of a pool share one rps schedule);
-		// every consumer stops at its first ok=false. The handed-out instants are merged and sorted.
+	if conc > 1 {
 		type res struct {
-			toks []int64
-			fin  int64
-			mono bool
-			over bool
+			toks  []int64
+			fin   int64
+			mono  bool
+			over  bool
+			first int64
 		}
 		out := make([]res, conc)
 		var total int64
 		var mu sync.Mutex
 		var wg sync.WaitGroup
+		var ready, gate int32
+		var before time.Time
 		for g := 0; g < conc; g++ {
 			wg.Add(1)
 			go func(g int) {
 				defer wg.Done()
-				r := res{mono: true}
+				r := res{mono: true, first: -1}
+				atomic.AddInt32(&ready, 1)
+				for atomic.LoadInt32(&gate) == 0 {
+					runtime.Gosched()
+				}
 				for {
 					tx, ok := s.Next()
+					if implicit && r.first < 0 {
+						r.first = int64(time.Since(before))
+					}
 					off := int64(tx.Sub(t0))
 					if !ok {
 						r.fin = off
@@ -778,24 +877,40 @@ func c01Run(input string) string {
 				out[g] = r
 			}(g)
 		}
+		for atomic.LoadInt32(&ready) < int32(conc) {
+			runtime.Gosched()
+		}
+		if implicit {
+			before = time.Now()
+			t0 = before
+		}
+		atomic.StoreInt32(&gate, 1)
 		wg.Wait()
 		for g, r := range out {
 			if r.over {
-				return "TOOMANY"
+				d.tooMany = true
+				return d
 			}
-			toks = append(toks, r.toks...)
-			mono = mono && r.mono
+			d.toks = append(d.toks, r.toks...)
+			d.mono = d.mono && r.mono
 			if g == 0 {
-				fin = r.fin
-			} else if r.fin != fin {
-				stable = false
+				d.fin = r.fin
+			} else if r.fin != d.fin {
+				d.stable = false
+			}
+			if implicit && (d.slack < 0 || r.first < d.slack) {
+				d.slack = r.first
 			}
 		}
-		sort.Slice(toks, func(i, j int) bool { return toks[i] < toks[j] })
-		if len(toks) > capN {
-			return "TOOMANY"
+		sort.Slice(d.toks, func(i, j int) bool { return d.toks[i] < d.toks[j] })
+		if len(d.toks) > capN {
+			d.tooMany = true
+			return d
 		}
 	} else {
+		if d.left0 > 0 && d.left0 <= capN {
+			d.toks = make([]int64, 0, d.left0)
+		}
 		first := true
 		for {
 			var before time.Time
@@ -805,23 +920,116 @@ func c01Run(input string) string {
 			}
 			tx, ok := s.Next()
 			if implicit && first {
-				slack = int64(time.Since(before))
+				d.slack = int64(time.Since(before))
 				first = false
 			}
 			off := int64(tx.Sub(t0))
 			if !ok {
-				fin = off
+				d.fin = off
 				break
 			}
-			if len(toks) > 0 && off < toks[len(toks)-1] {
-				mono = false
+			if len(d.toks) > 0 && off < d.toks[len(d.toks)-1] {
+				d.mono = false
 			}
-			toks = append(toks, off)
-			if len(toks) > capN {
-				return "TOOMANY"
+			d.toks = append(d.toks, off)
+			if len(d.toks) > capN {
+				d.tooMany = true
+				return d
 			}
 		}
 	}
+	for i := 0; i < 3; i++ {
+		tx, ok := s.Next()
+		if ok || int64(tx.Sub(t0)) != d.fin {
+			d.stable = false
+		}
+	}
+	if s.Left() != 0 {
+		d.stable = false
+	}
+	return d
+}
+
+// c01Odd: does this drain differ from the reference drain of the same configuration in what it handed out (number of
+// operations, their instants relative to the reported finish time), or does it show an instant before the clock
+// reading that preceded every Next()? Used to pick which of `trials=K` repetitions is shown to the Spec.
+func c01Odd(ref, d *c01Drain, implicit bool) bool {
+	if d.tooMany != ref.tooMany || !d.stable || !d.mono || d.left0 != ref.left0 || len(d.toks) != len(ref.toks) {
+		return true
+	}
+	if implicit && (d.fin < 0 || (len(d.toks) > 0 && d.toks[0] < 0)) {
+		return true
+	}
+	for i := range d.toks {
+		if d.toks[i]-d.fin != ref.toks[i]-ref.fin {
+			return true
+		}
+	}
+	return false
+}
+
+func c01Run(input string) string {
+	m := drv.KV(input)
+	if m["inst"] == "1" && !c01IsWorker {
+		// scheduling perturbation inside the schedule's own methods: run in the instrumented build of this driver
+		if obs, ok := c01RunInWorker(input); ok {
+			return obs
+		}
+	}
+	if ref := m["doc"]; ref != "" {
+		if _, _, ok := c01DocSection(ref); !ok {
+			return "NODOC" // replayed against a tree whose documentation has no such example
+		}
+	}
+	capN := capTokens
+	if m["big"] == "1" {
+		capN = capTokensBig
+	}
+	t0 := time.Unix(1_700_000_000, 0)
+	if v, ok := m["t0"]; ok {
+		ns, err := strconv.ParseInt(v, 10, 64)
+		if err != nil {
+			panic(err)
+		}
+		t0 = time.Unix(0, ns)
+	}
+	implicit := m["start"] == "implicit"
+	conc, _ := strconv.Atoi(m["conc"])
+	trials, _ := strconv.Atoi(m["trials"])
+	if trials < 1 {
+		trials = 1
+	}
+	if trials > 4096 {
+		trials = 4096
+	}
+	if c01IsWorker && m["inst"] == "1" {
+		defer c01Perturb(input)()
+	}
+	// trials=K: the configuration is decoded and drained K times (a fresh schedule each time). What the Spec is shown is
+	// the first repetition that differs from the first one or shows an instant before the clock reading taken before
+	// any Next(); if there is none, the last repetition.
+	var d, ref c01Drain
+	for k := 0; k < trials; k++ {
+		s, ok := c01Decode(m)
+		if !ok {
+			return "REJECT"
+		}
+		d = c01DrainOnce(s, capN, t0, implicit, conc)
+		if k == 0 {
+			ref = d
+			if implicit && len(d.toks) > 0 && d.toks[0] < 0 || implicit && d.fin < 0 || !d.stable {
+				break
+			}
+			continue
+		}
+		if c01Odd(&ref, &d, implicit) {
+			break
+		}
+	}
+	if d.tooMany {
+		return "TOOMANY"
+	}
+	left0, toks, fin, stable, mono, slack := d.left0, d.toks, d.fin, d.stable, d.mono, d.slack
 	var tmin, tmax int64 = math.MaxInt64, math.MinInt64
 	for _, off := range toks {
 		if off < tmin {
@@ -830,15 +1038,6 @@ func c01Run(input string) string {
 		if off > tmax {
 			tmax = off
 		}
-	}
-	for i := 0; i < 3; i++ {
-		tx, ok := s.Next()
-		if ok || int64(tx.Sub(t0)) != fin {
-			stable = false
-		}
-	}
-	if s.Left() != 0 {
-		stable = false
 	}
 	n := len(toks)
 	if n == 0 {
@@ -974,6 +1173,14 @@ func c01Class(in, obs string) string {
 		}
 	}
 	switch {
+	case m["start"] == "implicit" && m["conc"] != "" && m["inst"] == "1":
+		c += "+implicit-start-concurrent-perturbed"
+	case m["start"] == "implicit" && m["conc"] != "":
+		c += "+implicit-start-concurrent"
+	case m["inst"] == "1":
+		c += "+concurrent-perturbed"
+	case m["omit"] == "1":
+		c += "+omitted-zero-rate"
 	case m["start"] == "implicit":
 		c += "+implicit-start"
 	case m["conc"] != "":
@@ -985,6 +1192,7 @@ func c01Class(in, obs string) string {
 }
 
 func main() {
+	defer c01RemoveInstrumentedWorker()
 	drv.Main(&drv.Prop{
 		ID:      "C01",
 		Gen:     c01Gen,
